@@ -201,7 +201,9 @@ Print Assumptions jail_protection_holds.
     account that ends [VestingMonths] CALENDAR months after the block time.  Calendar arithmetic is done
     in the zone the time value carries; the block time carries UTC on every node, and the source computes
     the period from it directly (shape regenerated on every check) — so the step takes nothing from the
-    ambient.  Re-made with time.Unix (process-local zone) the zone would be an input: month-end and
+    ambient.  In a fixed-offset zone the computation is the UTC one on the shifted instant (so the zone
+    matters exactly when adding months does not commute with the shift).  Re-made with time.Unix
+    (process-local zone) the zone would be an input: month-end and
     daylight-saving witnesses ([Sys/CalendarProofs.v]; replayed on the real msg server by the corpus of
     harness/c08 in twins running in UTC, Asia/Tokyo and America/New_York). *)
 Theorem vesting_calendar_in_utc :
@@ -210,9 +212,10 @@ Theorem vesting_calendar_in_utc :
      "end: endTime.Unix()"; "start: beginTime.Unix()"]%string /\
   (forall a a' s t months, step_amb a s (TxVest t months) = step_amb a' s (TxVest t months)) /\
   (forall a t months, tz a = Calendar.utc -> vest_end_local a t months = Calendar.vest_end t months) /\
+  (forall o t months, Calendar.add_months (Calendar.fixed_zone o) t months = Calendar.add_months Calendar.utc (t + o) months - o) /\
   (exists a a' t months, amb_ok a /\ amb_ok a' /\ vest_end_local a t months <> vest_end_local a' t months).
 Proof.
-  exact (conj vesting_period_source_shape (conj vest_step_ignores_ambient (conj vest_end_local_utc local_zone_calendar_refuted_lemma))).
+  exact (conj vesting_period_source_shape (conj vest_step_ignores_ambient (conj vest_end_local_utc (conj fixed_zone_is_shift local_zone_calendar_refuted_lemma)))).
 Qed.
 Print Assumptions vesting_calendar_in_utc.
 
